@@ -1,39 +1,57 @@
 /-
 C06 — parsing always terminates.
 
-FULL STATEMENT (all grammars the spec reader accepts, all finite inputs, the admission policy the source has):
+FULL STATEMENT (all grammars the spec reader accepts, all finite inputs, the variant of the parser the source has):
 
-    def FullStatement (p : Policy) : Prop :=
-      ∀ (G : Grammar) (cap : Nat) (inp : Input) (start : String) (pred : Nat → NT → List (List ESym)),
-        Sane (mkCfg G cap inp start p pred) →
-        ∃ n m', run (mkCfg G cap inp start p pred) n (M.init _) = .done m' ∨ … = .raised m'
+    def FullStatement (v : Variant) : Prop :=
+      ∀ (G : Grammar) (inp : Input) (start : String) (pred : Nat → NT → List (List ESym)),
+        (∀ k x rhs, rhs ∈ pred k x → (x, rhs) ∈ compile G v.cap) →
+        ∃ n m', run (mkCfg G v inp start pred) n (M.init _) = .done m' ∨ … = .raised m'
 
-What is proved here, for the model `Model/Earley.lean` (one-shot COMPLETE parse):
+(`FullStatement` below.)  What is proved here, for the model `Model/Earley.lean` (one-shot COMPLETE parse; the machine
+includes the loop that ends `predict` — /repo 1d73281f — and the open-ended `{n,}` tail — b48dd899):
 
 * `C06_core_item_space_finite`   the core item space of a column is finite, with the design's bound;
-* `C06_recognise_terminates`     FullStatement .core — for every rule table, prediction order, scanner: the chart
-                                 closure under `admitCore` (duplicate ⇔ same item) reaches `done`/`raised` within
-                                 `stepBound c` steps, a function of the configuration (well-founded measure `mu`,
-                                 every step decreases it: `step_core`); no fuel in the statement;
-* `C06_admitImpl_diverges_example_partial`  FullStatement .impl is refuted on `("a"?)* "b"` / "ab" *up to the
-                                 bound checked*: after 200, 400, 600 steps the machine is still running and
-                                 the number of nAdmitted states has grown each time (`decide +kernel`, finite
-                                 witness).  Partial: the statement for *all* n (an invariant of the loop) is not
-                                 proved; the harness replays the witness on the real parser on every run.
-* `C06_cut_terminates_witnesses` with the covering cut (`Policy.acyclic`, the repair) the same input and three
-                                 other cyclic grammars finish, with exactly the acyclic trees (`decide +kernel`);
-* `C06_generated_policy_verdict` the verdict for the policy the translator read from the source *now*
-                                 (`Generated/Earley.lean`): it is one the model knows; if it is `impl` the witness
-                                 diverges (⇒ the check reports F9 through `known_findings`), if it is `acyclic` or
-                                 `core` the witness terminates.
+* `C06_recognise_terminates`     for every rule table, prediction order, scanner, with or without the completing
+                                 `predict`: the chart closure under `admitCore` (duplicate ⇔ same item) reaches
+                                 `done`/`raised` within `stepBound c` steps, a function of the configuration
+                                 (well-founded measure `mu`, every step decreases it: `step_core`); no fuel in the
+                                 statement;
+* `C06_recognise_terminates_all_grammars`  = FullStatement for every variant with the core policy: every grammar,
+                                 input, start symbol, prediction order;
+* `C06_cut_terminates_witnesses` the parser as it is now (`Variant.now`: children in the admission test + the covering
+                                 cut in `complete`) finishes on the design's witness `("a"?)* "b"` / "ab" and on four
+                                 other grammars with a same-span self-derivation, with exactly the acyclic trees
+                                 (`decide +kernel`); the cut does not reject the input;
+* `C06_generated_variant_verdict` the verdict for the variant the translator read from the source *now*
+                                 (`Generated/Earley.lean`): it is one the model knows, and the witness terminates for
+                                 it (if the source went back to the OLD admission rule the witness would diverge and
+                                 this obligation would fail — the check then reports F9 again);
+* `C06_old_admitImpl_diverges_example_partial`  OLD (the code before /repo 73e5ffe3, `Variant.old`; NOT true of the
+                                 code as it is): FullStatement (Variant.old 20) is refuted on `("a"?)* "b"` / "ab" *up
+                                 to the bound checked*: after 200, 400, 600 steps the machine is still running and the
+                                 number of admitted states has grown each time.  Kept as the record of finding F9.
 
-NOT proved (kept visible; rests on the per-run correspondence and the step meter on the real parser):
-  `forest_terminates : FullStatement .acyclic` (all grammars, needs finiteness of the acyclic derivations of a
-  span), `NoEpsCycle rules → termination under .impl`, and everything about INCOMPLETE (prefix) mode, which the
-  model does not cover.
+* `C06_forest_terminates_partial` / `C06_nontermination_needs_unbounded_chart_partial`  EVERY admission policy — in
+                                 particular the one the code has (`Variant.now`) —, every grammar, input, prediction
+                                 order: a run that is still going after `n` steps and whose columns hold at most `N`
+                                 states has `n ≤ stepBoundN c N` (a function of the configuration and `N`; measure
+                                 `muN`, `Proofs/EarleyGrow.lean`).  So the machine has no way of running forever except
+                                 by admitting ever more states into one column: there is no loop outside the
+                                 admissions (`complete`'s live list, the loop that ends `predict`, the repetition
+                                 shortcut included).  Partial: that the chart stays bounded is the missing half.
+
+NOT proved — `FullStatement Variant.now` is the `_partial` gap: under the admission rule of the code (duplicate ⇔
+same item AND same children) termination needs that only finitely many children lists are admissible under the
+covering cut (every same-span nesting of derivations strictly shrinks the covering set — an induction over span
+length × covering set × dot that is not formalised).  What stands in for it per run: the per-column state
+correspondence with the real parser on every generated case (both finish, same states), the step bound derived
+from the model's own step count, and the lock-step prefix comparison where neither finishes within the budget.
+INCOMPLETE (prefix) mode is not modelled at all.
 -/
 import Model.Earley
 import Proofs.EarleyTerm
+import Proofs.EarleyGrow
 import Generated.Earley
 namespace FV.Earley
 
@@ -50,9 +68,10 @@ def G2 : Grammar := { rules := [("<start>", .cat "c" [.nt "<a>" none none, litB]
                                 ("<a>", .alt "d" [.nt "<a>" none none, .term (.lit (.text [97]))])] }
 /-- `<start> ::= (("a"?)*)* "b"` -/
 def G3 : Grammar := { rules := [("<start>", .cat "c" [.rep "t" .star starN 0 none, litB])] }
+/-- `<start> ::= ("a"?){2,} "b"` (open-ended repetition with an empty-deriving body) -/
+def G4 : Grammar := { rules := [("<start>", .cat "c" [.rep "q" .braces optA 2 none, litB])] }
 def inAB : Input := { isBytes := false, cells := [97, 98], rlen := fun _ _ => none }
-def cfgG (G : Grammar) (p : Policy) : Cfg := mkCfg G 20 inAB "<start>" p (predDefault G 20)
-def cfg0 (p : Policy) : Cfg := cfgG G0 p
+def cfgV (G : Grammar) (v : Variant) : Cfg := mkCfg G v inAB "<start>" (predDefault G v.cap)
 
 def Res.running : Res → Bool
   | .next _ => true
@@ -65,7 +84,14 @@ def Res.m : Res → M
   | .done m => m
   | .raised m => m
 def nAdmitted (r : Res) : Nat := (r.m.cols.map (fun c => c.states.length)).foldl (· + ·) 0
-def at_ (p : Policy) (n : Nat) : Res := run (cfg0 p) n (M.init (cfg0 p))
+def runV (G : Grammar) (v : Variant) (n : Nat) : Res := run (cfgV G v) n (M.init (cfgV G v))
+
+/-- the full statement for a variant of the parser -/
+def FullStatement (v : Variant) : Prop :=
+  ∀ (G : Grammar) (inp : Input) (start : String) (pred : Nat → NT → List (List ESym)),
+    (∀ k x rhs, rhs ∈ pred k x → (x, rhs) ∈ compile G v.cap) →
+    ∃ n m', run (mkCfg G v inp start pred) n (M.init (mkCfg G v inp start pred)) = .done m'
+          ∨ run (mkCfg G v inp start pred) n (M.init (mkCfg G v inp start pred)) = .raised m'
 
 /-- the core item space of column `j`: (dot slots of the rule table) × (origins ≤ j), at most
     `|rules'| · (maxRhs + 1) · (j + 1)` — the bound of DESIGN §4 -/
@@ -79,54 +105,112 @@ theorem C06_core_item_space_finite (c : Cfg) (j : Nat) :
 
 /-- the recogniser core terminates: for every configuration whose `predict` only offers alternatives of the
     rule table and whose scanner never moves backwards, the closure under `admitCore` is over after at most
-    `stepBound c` steps — for every grammar (nullable, cyclic, left/right recursive), input and prediction order -/
+    `stepBound c` steps — for every grammar (nullable, cyclic, left/right recursive), input and prediction order,
+    with the loop that ends `predict` (`c.predDone`) or without it -/
 theorem C06_recognise_terminates (c : Cfg) (hs : Sane c) (hp : c.policy = .core) :
     ∃ m', run c (stepBound c) (M.init c) = .done m' ∨ run c (stepBound c) (M.init c) = .raised m' :=
   run_core_finishes hs hp (stepBound c) (M.init c) (wf_init hp) (Nat.lt_succ_self _)
 
 /-- the hypotheses of `C06_recognise_terminates` are met by every compiled grammar on every input (prediction in
-    table order), in particular by the cyclic witness grammar -/
-example : Sane (cfgOf (compile G0 20) inAB "<start>" .core) ∧ (cfgOf (compile G0 20) inAB "<start>" .core).policy = .core :=
-  ⟨sane_cfgOf _ _ _ _, rfl⟩
+    table order), in particular by the cyclic witness grammar with the machine of the code as it is now -/
+example : Sane (cfgOf (compile G0 none) { Variant.now with policy := .core } inAB "<start>")
+    ∧ (cfgOf (compile G0 none) { Variant.now with policy := .core } inAB "<start>").policy = .core
+    ∧ (cfgOf (compile G0 none) { Variant.now with policy := .core } inAB "<start>").predDone = true :=
+  ⟨sane_cfgOf _ _ _ _, rfl, rfl⟩
 
-theorem C06_recognise_terminates_compiled (G : Grammar) (cap : Nat) (inp : Input) (start : String) :
-    let c := cfgOf (compile G cap) inp start .core
-    ∃ m', run c (stepBound c) (M.init c) = .done m' ∨ run c (stepBound c) (M.init c) = .raised m' :=
-  C06_recognise_terminates _ (sane_cfgOf _ _ _ _) rfl
+/-- **FullStatement for the core admission rule**: every grammar, every variant of compilation / scanner / `predict`,
+    every input, start symbol and prediction order — the bound is a function of the configuration -/
+theorem C06_recognise_terminates_all_grammars (v : Variant) (hp : v.policy = .core) : FullStatement v := by
+  intro G inp start pred hpred
+  obtain ⟨m', h⟩ := C06_recognise_terminates (mkCfg G v inp start pred) (sane_mkCfg G v inp start pred hpred) hp
+  exact ⟨_, m', h⟩
 
-/-- the current admission rule (`impl`: duplicate ⇔ same item and same children) on `("a"?)* "b"` / "ab":
-    still running after 200, 400 and 600 steps, the chart growing every time.  Finite witness
-    (`decide +kernel`); the same run under the core policy is over after 64 steps. -/
-theorem C06_admitImpl_diverges_example_partial :
-    (at_ .impl 600).running = true
-    ∧ nAdmitted (at_ .impl 200) < nAdmitted (at_ .impl 400)
-    ∧ nAdmitted (at_ .impl 400) < nAdmitted (at_ .impl 600)
-    ∧ (at_ .core 100).isDone = true := by
-  decide +kernel
+/-- **every admission policy** (the code's included), every rule table, prediction order and scanner that does not
+    move backwards: a run that has not stopped after `n` steps while every column of its chart holds at most `N`
+    states has `n ≤ stepBoundN c N`.  PARTIAL for FullStatement: what is missing is that the chart of `Variant.now`
+    stays bounded (finitely many children lists are admissible under the covering cut). -/
+theorem C06_forest_terminates_partial (c : Cfg) (hs : ScanMono c) (N n : Nat) (m : M)
+    (h : run c n (M.init c) = .next m) (hN : ∀ j, (colAt m.cols j).states.length ≤ N) :
+    n ≤ stepBoundN c N :=
+  run_any_bounded hs N n (M.init c) m (wfN_init c) h hN
 
-/-- with the covering cut (the repair) the witness and three other cyclic grammars finish on "ab" within 100
-    steps, with exactly the acyclic trees (1, 2, 1, 1); the cut does not reject the input -/
+/-- the same for the machine of any grammar, variant of the code, input, start symbol and prediction order (no
+    hypothesis on the prediction order is needed), as a statement about divergence: a parse that never stops
+    builds, for every `N`, a column with more than `N` states -/
+theorem C06_nontermination_needs_unbounded_chart_partial (G : Grammar) (v : Variant) (inp : Input) (start : String)
+    (pred : Nat → NT → List (List ESym))
+    (hdiv : ∀ n, ∃ m, run (mkCfg G v inp start pred) n (M.init (mkCfg G v inp start pred)) = .next m) :
+    ∀ N, ∃ n m j, run (mkCfg G v inp start pred) n (M.init (mkCfg G v inp start pred)) = .next m
+      ∧ N < (colAt m.cols j).states.length := by
+  intro N
+  have hs : ScanMono (mkCfg G v inp start pred) := fun t k e l h => scanV_mono v inp t k e l h
+  obtain ⟨m, hm⟩ := hdiv (stepBoundN (mkCfg G v inp start pred) N + 1)
+  apply Classical.byContradiction
+  intro hno
+  have hall : ∀ j, (colAt m.cols j).states.length ≤ N := by
+    intro j
+    apply Classical.byContradiction
+    intro hj
+    exact hno ⟨_, m, j, hm, by omega⟩
+  have := C06_forest_terminates_partial _ hs N _ m hm hall
+  omega
+
+/-- non-vacuity: the witness run of the code as it is, one step before it stops, is such a run (`N = 27`) -/
+example : ∃ m, run (cfgV G0 Variant.now) 86 (M.init (cfgV G0 Variant.now)) = .next m
+    ∧ (∀ j, (colAt m.cols j).states.length ≤ 27) := by
+  refine ⟨(runV G0 Variant.now 86).m, ?_, ?_⟩
+  · have : (runV G0 Variant.now 86).running = true := by decide +kernel
+    unfold runV at this ⊢
+    cases h : run (cfgV G0 Variant.now) 86 (M.init (cfgV G0 Variant.now)) with
+    | next m => rfl
+    | done m => rw [h] at this; cases this
+    | raised m => rw [h] at this; cases this
+  · intro j
+    have hall : ((runV G0 Variant.now 86).m.cols.all (fun col => decide (col.states.length ≤ 27))) = true := by
+      decide +kernel
+    unfold colAt
+    rw [List.getD_eq_getElem?_getD]
+    cases hj : (runV G0 Variant.now 86).m.cols[j]? with
+    | none => simp
+    | some col =>
+      have := List.all_eq_true.1 hall col (List.mem_of_getElem? hj)
+      simpa using this
+
+/-- the parser as it is now (children in the admission test + the covering cut, the completing `predict`, the
+    open-ended tail) on the design's witness and four other grammars with a same-span self-derivation: it finishes
+    on "ab" within 200 steps with exactly the acyclic trees (1, 2, 1, 1, 3); the cut does not reject the input -/
 theorem C06_cut_terminates_witnesses :
-    (at_ .acyclic 100).isDone = true ∧ (at_ .acyclic 100).m.out.length = 1
-    ∧ (run (cfgG G1 .acyclic) 100 (M.init (cfgG G1 .acyclic))).isDone = true
-    ∧ (run (cfgG G1 .acyclic) 100 (M.init (cfgG G1 .acyclic))).m.out.length = 2
-    ∧ (run (cfgG G2 .acyclic) 100 (M.init (cfgG G2 .acyclic))).isDone = true
-    ∧ (run (cfgG G2 .acyclic) 100 (M.init (cfgG G2 .acyclic))).m.out.length = 1
-    ∧ (run (cfgG G3 .acyclic) 100 (M.init (cfgG G3 .acyclic))).isDone = true
-    ∧ (run (cfgG G3 .acyclic) 100 (M.init (cfgG G3 .acyclic))).m.out.length = 1
-    ∧ hasEpsCycle (compile G0 20) = true ∧ hasEpsCycle (compile G2 20) = true := by
+    (runV G0 Variant.now 200).isDone = true ∧ (runV G0 Variant.now 200).m.out.length = 1
+    ∧ (runV G1 Variant.now 200).isDone = true ∧ (runV G1 Variant.now 200).m.out.length = 2
+    ∧ (runV G2 Variant.now 200).isDone = true ∧ (runV G2 Variant.now 200).m.out.length = 1
+    ∧ (runV G3 Variant.now 200).isDone = true ∧ (runV G3 Variant.now 200).m.out.length = 1
+    ∧ (runV G4 Variant.now 200).isDone = true ∧ (runV G4 Variant.now 200).m.out.length = 3
+    ∧ hasEpsCycle (compile G0 none) = true ∧ hasEpsCycle (compile G2 none) = true
+    ∧ hasEpsCycle (compile G4 none) = true := by
   decide +kernel
 
-/-- what the policy read from the source *now* does on the witness -/
-def verdictFor : Option Policy → Bool
-  | some .impl => (at_ .impl 600).running
-  | some .acyclic => (at_ .acyclic 100).isDone
-  | some .core => (at_ .core 100).isDone
+/-- what the variant read from the source *now* does on the witness `("a"?)* "b"` / "ab" -/
+def verdictFor : Option Variant → Bool
+  | some v =>
+    match v.policy with
+    | .impl => false                      -- the OLD admission rule: the witness diverges (theorem below)
+    | _ => (runV G0 v 200).isDone
   | none => false
 
-/-- the generated policy is one the model has, and the witness behaves as stated for it: `impl` diverges
-    (bounded witness above), `acyclic` / `core` terminate -/
-theorem C06_generated_policy_verdict : verdictFor Gen.policy = true := by
+/-- the generated variant is one the model has, its admission rule is not the OLD one, and the witness terminates
+    for it -/
+theorem C06_generated_variant_verdict : verdictFor Gen.variant = true := by
+  decide +kernel
+
+/-- OLD — about the code BEFORE /repo 73e5ffe3 (`Variant.old`: duplicate ⇔ same item and same children, no cut), NOT
+    about the code as it is: on `("a"?)* "b"` / "ab" the machine is still running after 200, 400 and 600 steps, the
+    chart growing every time (finite witness, `decide +kernel`; partial: the statement for all n is not proved).
+    The same run with the cut (`Variant.now`) is over after 87 steps. -/
+theorem C06_old_admitImpl_diverges_example_partial :
+    (runV G0 (Variant.old 20) 600).running = true
+    ∧ nAdmitted (runV G0 (Variant.old 20) 200) < nAdmitted (runV G0 (Variant.old 20) 400)
+    ∧ nAdmitted (runV G0 (Variant.old 20) 400) < nAdmitted (runV G0 (Variant.old 20) 600)
+    ∧ (runV G0 Variant.now 87).isDone = true := by
   decide +kernel
 
 end FV.Earley
